@@ -108,6 +108,9 @@ def _h0_case(draw, mode):
         "atol_opt": draw(st.sampled_from([None, 1e-12, 1e-8])),
         "tight": mode == "direct" and draw(st.integers(0, 4)) == 0,
         "reverse_explicit": draw(st.booleans()),
+        # non-Hermitian H_0 stored as a REAL matrix although some of its eigenvalues come in complex-conjugate pairs,
+        # one partner among the explicit states and the other in the implicit part (complex eigenvectors, real dtype)
+        "real_pairs": bool(nh and draw(st.integers(0, 2)) == 0),
     }
     if mode == "greens":
         case["dtype"] = draw(st.sampled_from(["float64", "complex128", "float32", "complex64", "int64"]))
@@ -167,6 +170,30 @@ def build_h0(case):
                 S[a, b] = 0.5 * c
                 R = R @ S
     E = np.array([complex(e[0], e[1]) for e in case["E"]])
+    real_pairs = False
+    if case.get("real_pairs") and case["nh"] and not case.get("tight"):
+        nexp = sum(case["sizes"])
+        cidx = [k_ for k_ in range(nexp) if E[k_].imag != 0]
+        partners = [E[k_].conjugate() for k_ in cidx]
+        if cidx and len(cidx) <= n - nexp and not any(pt == E[k_] for pt in partners for k_ in range(nexp)):
+            real_pairs = True
+            E = E.copy()
+            E[nexp:] = E[nexp:].real
+            W = np.eye(n, dtype=complex)
+            for t_, k_ in enumerate(cidx):
+                q_ = nexp + t_
+                E[q_] = partners[t_]
+                W[:, k_] = 0
+                W[:, q_] = 0
+                W[k_, k_] = W[k_, q_] = 1 / np.sqrt(2)
+                W[q_, k_], W[q_, q_] = 1j / np.sqrt(2), -1j / np.sqrt(2)
+            Sr, _ = np.linalg.qr(G.real + 0.0)
+            for a, b, c in case["shear"]:
+                if a != b and c:
+                    Sh = np.eye(n)
+                    Sh[a, b] = 0.5 * c
+                    Sr = Sr @ Sh
+            R = Sr @ W
     if case.get("tight") and case["sizes"][0] >= 2:
         # two distinct explicit levels that are close *relative to their magnitude*: 128 and 128 + 2^-10
         # (difference 9.8e-4 < 1e-5 * 128 but far above every absolute tolerance); all numbers exactly representable
@@ -176,6 +203,10 @@ def build_h0(case):
         E = E.real
     Rinv = np.linalg.inv(R)
     H0 = R @ np.diag(E) @ Rinv
+    if real_pairs:
+        if float(np.abs(H0.imag).max()) > 1e-12 * max(1.0, float(np.abs(H0).max())):
+            raise AssertionError("real_pairs construction did not give a real H_0")
+        H0 = H0.real.copy()
     if not case["nh"]:
         H0 = (H0 + H0.conj().T) / 2
         if not case["complex"]:
@@ -329,6 +360,8 @@ def _check_direct(case, out, wlist):
     if case["nh"]:
         vecs = [(r.copy(), l.copy()) for r, l in blocks]
         out.labels.append("biorthogonal")
+        if np.isrealobj(H0):
+            out.labels.append("real-h0-complex-pairs")
     else:
         vecs = [r.copy() for r, _ in blocks]
     h0 = sparse.csr_array(H0) if case["sparse_h0"] else H0
